@@ -15,7 +15,11 @@ mod c01;
 mod c02;
 mod c04;
 #[cfg(feature = "model")]
+mod c05;
+#[cfg(feature = "model")]
 mod c06;
+#[cfg(feature = "model")]
+mod c10;
 mod c11;
 mod c14;
 mod c16;
@@ -42,7 +46,13 @@ fn main() {
         "c02" => c02::run(&args),
         "c04" => c04::run(&args),
         #[cfg(feature = "model")]
+        "c05" => c05::run(&args),
+        #[cfg(feature = "model")]
+        "c05child" => c05::run_child(&args),
+        #[cfg(feature = "model")]
         "c06" => c06::run(&args),
+        #[cfg(feature = "model")]
+        "c10" => c10::run(&args),
         "c11" => c11::run(&args),
         "c14" => c14::run(&args),
         "c16" => c16::run(&args),
